@@ -46,19 +46,22 @@ def compile_unroll( schedule ):
     # FIXME update_once? currently check if the design has method_port
     method_ports = top.get_all_object_filter( lambda x: isinstance( x, MethodPort ) )
 
-    if len(method_ports) == 0: # Pure RTL design, add eval_combinational
+    if len(method_ports) == 0 and len( top.get_all_update_once() ) == 0:
+      # Pure RTL design, add eval_combinational
       sim_eval_combinational = self.gen_tick_function( top._sched.update_schedule )
     else:
       def sim_eval_combinational():
-        raise NotImplementedError(f"top is not a pure RTL design. {'top'+repr(list(method_ports)[0])[1:]} is a method port.")
+        raise NotImplementedError("top is not a pure RTL design: it has method ports or update_once blocks.")
 
     top.sim_eval_combinational = sim_eval_combinational
 
   # Override
   def create_sim_tick( self, top ):
     final_schedule = []
-    if not top.get_all_object_filter( lambda x: isinstance( x, MethodPort ) ):
-      # Pure RTL -- tick update blocks first
+    if not top.get_all_object_filter( lambda x: isinstance( x, MethodPort ) ) and \
+       not top.get_all_update_once():
+      # Pure RTL -- tick update blocks first (an update_once block must run
+      # once per cycle, see PrepareSimPass)
       final_schedule = top._sched.update_schedule[::]
 
     if self.print_line_trace and hasattr( top, 'line_trace' ):
